@@ -370,6 +370,9 @@ func (a *genericAuthenticator) getCacheTTL(sessionLifespan *SessionLifespan) tim
 func (a *genericAuthenticator) calculateCacheKey(ctx heimdall.Context, reference string) string {
 	digest := sha256.New()
 	digest.Write(a.e.Hash())
+	// another mechanism may make use of the same endpoint, but send a different payload
+	digest.Write(stringx.ToBytes(a.id))
+	digest.Write([]byte{0})
 	// the ttl can be overridden on the rule level. An entry cached with a longer ttl configured
 	// for one rule must not be used by another rule beyond the shorter ttl configured for it
 	digest.Write(binary.LittleEndian.AppendUint64(nil, uint64(a.ttl)))
